@@ -113,6 +113,11 @@ def run(rep, tier, build, replay=None):
             rec = r[ci]
             if not rec['repeat_equal']:
                 rep.fail('the same calls repeated in one process give different results', dict(cs, PYTHONHASHSEED=s), {})
+            rounds = rec.get('altered_schema_rounds')
+            if rounds and any(r_ != rounds[0] for r_ in rounds[1:]):
+                rep.fail('on a database whose schema is not the expected one, the same read-only calls give different results '
+                         'the first time and later (a refused call changed what later calls do)', dict(cs, PYTHONHASHSEED=s),
+                         {'rounds': rounds})
             if not rec['db_unchanged']:
                 rep.fail('read-only calls changed the database', dict(cs, PYTHONHASHSEED=s), {})
             if rec['sha'] != ref['sha']:
